@@ -128,6 +128,11 @@ class Module:
             self.source = f.read()
         self.tree = ast.parse(self.source, filename=path)
         self.alpha_renamed = 0
+        self.relocated: dict = {}
+        if os.environ.get("VERIF_NO_CANON") != "1":
+            from .canon import relocate
+
+            self.relocated = relocate(name, self.tree)
         if os.environ.get("VERIF_NO_ALPHA") != "1":
             from .alpha import canonicalise, load_reference
 
@@ -148,7 +153,7 @@ class Module:
         for child in ast.iter_child_nodes(node):
             self.parents[child] = node
             if isinstance(child, (ast.FunctionDef, ast.AsyncFunctionDef)):
-                q = prefix + child.name
+                q = getattr(child, "_vq", None) or (prefix + child.name)
                 prev = self.funcs.get(q)
                 # typing.overload stubs come first; the implementation is the undecorated definition
                 if prev is None or any("overload" in ast.unparse(d) for d in prev.decorator_list):
